@@ -178,9 +178,25 @@ func (t *fakeTransport) RoundTrip(req *http.Request) (*http.Response, error) {
 type readSeekCloser struct {
 	*strings.Reader
 	closed int
+	strict bool
 }
 
 func (r *readSeekCloser) Close() error { r.closed++; return nil }
+
+// strict, like *os.File: unusable once closed
+func (r *readSeekCloser) Read(p []byte) (int, error) {
+	if r.strict && r.closed > 0 {
+		return 0, errors.New("read: file already closed")
+	}
+	return r.Reader.Read(p)
+}
+
+func (r *readSeekCloser) Seek(off int64, whence int) (int64, error) {
+	if r.strict && r.closed > 0 {
+		return 0, errors.New("seek: file already closed")
+	}
+	return r.Reader.Seek(off, whence)
+}
 
 type httpCase struct {
 	bodyKind string // "nil", "nobody", "buffer", "bytesreader", "stringsreader", "stream", "seeker-direct"
@@ -266,6 +282,8 @@ func (c httpCase) run() func() {
 			rd = io.MultiReader(strings.NewReader(c.body[:len(c.body)/2]), strings.NewReader(c.body[len(c.body)/2:]))
 		case "seeker-direct":
 			direct = &readSeekCloser{Reader: strings.NewReader(c.body)}
+		case "seeker-file":
+			direct = &readSeekCloser{Reader: strings.NewReader(c.body), strict: true}
 		}
 		ctx := context.Background()
 		var cancelCaller context.CancelFunc
@@ -339,7 +357,11 @@ func (c httpCase) run() func() {
 			_ = cancelExec
 		}
 		if msg := c.check(ft, origHeader, resp, err, got, readErr, deadline); msg != "" {
-			vrt.Fail(msg)
+			if c.leakOnly {
+				vrt.FailLater(msg) // the leak analysis at quiescence comes first
+			} else {
+				vrt.Fail(msg)
+			}
 		}
 	}
 }
@@ -430,7 +452,7 @@ func (c httpCase) check(ft *fakeTransport, origHeader http.Header, resp *http.Re
 		// Retry-After (seconds) is waited for
 		for i := 1; i < len(ft.recs); i++ {
 			prev := c.script[min(i-1, len(c.script)-1)]
-			if prev.RetryAfter != "" && (prev.Status == 429 || prev.Status == 503) {
+			if prev.RetryAfter != "" && (prev.Status == 429 || prev.Status == 503) && ft.recs[i-1].Resp != nil { // (no response if a time limit ended the attempt first)
 				var secs int64
 				fmt.Sscan(prev.RetryAfter, &secs)
 				if gap := ft.recs[i].At - ft.recs[i-1].Returned; gap < secs*int64(time.Second) {
@@ -483,7 +505,7 @@ func indexOf(rs []*attemptRec, r *attemptRec) int {
 func c18Cases(tier string) []httpCase {
 	var out []httpCase
 	bodies := []struct{ k, b string }{{"nil", ""}, {"nobody", ""}, {"buffer", "hello body"}, {"buffer", ""}, {"bytesreader", "hello body"}, {"stringsreader", "hello body"}, {"stringsreader", ""},
-		{"stream", "hello streamed body"}, {"seeker-direct", "hello body"}, {"seeker-direct", ""}}
+		{"stream", "hello streamed body"}, {"seeker-direct", "hello body"}, {"seeker-direct", ""}, {"seeker-file", "hello body"}}
 	reqCtxs := []string{"background", "todo", "cancel", "value", "deadline", "value+deadline"}
 	execCtxs := []string{"none", "background", "cancel", "value"}
 	stacks := []string{"none", "retry", "timeout", "hedge", "breaker", "fallback", "retry+timeout", "retry+hedge", "timeout+retry"}
@@ -494,6 +516,9 @@ func c18Cases(tier string) []httpCase {
 		{{Status: 500, Body: "e"}, ok},
 		{{Status: 429, RetryAfter: "1", Body: "slow down"}, ok},
 		{{Status: 503, RetryAfter: "2"}, {Status: 503, RetryAfter: "1"}, ok},
+		// the response that carries Retry-After is itself slow in coming
+		{{Status: 429, RetryAfter: "1", Body: "slow down", Think: 600 * time.Millisecond}, ok},
+		{{Status: 503, RetryAfter: "1", Think: 1500 * time.Millisecond}, {Status: 429, RetryAfter: "2", Think: 300 * time.Millisecond, Body: "x", Stream: 5 * time.Millisecond}, ok},
 		{{Status: 501, Body: "ni"}},
 		{{Status: 500}, {Status: 502}, {Status: 504, Body: "last"}},
 		{{Err: errors.New("connection reset")}, ok},
